@@ -35,6 +35,15 @@ Definition compl_l (l : letter) : letter := L (compl (lcode l)) (lupper l).
 
 Definition rc (s : list letter) : list letter := rev (map compl_l s).
 
+Definition rc_codes (w : list code) : list code := rev (map compl w).
+
+Fixpoint codes_eqb (a b : list code) : bool :=
+  match a, b with
+  | [], [] => true
+  | x :: a', y :: b' => code_eqb x y && codes_eqb a' b'
+  | _, _ => false
+  end.
+
 (* case folding: str.upper() *)
 Definition upper_l (l : letter) : letter := L (lcode l) true.
 Definition fold_case (s : list letter) : list letter := map upper_l s.
